@@ -298,11 +298,19 @@ def run(ctx):
                 want = 2 if len(ups) == 1 else 4
                 if len([x for x in cov["samples"] if x["config"] == c["name"]]) < 2 and not last["hit"] and last["node"]["n"] >= 2:
                     cov["samples"].append(dict(config=c["name"], steps=scn["steps"], observed_last=r["steps"][-1]))
-            pool.run_all(list(scns.values()), on_result, chunk=32)
+            def feed():
+                # once many scenarios of a configuration have failed the rest adds nothing, and under a defect every
+                # further decode of a damaged page may allocate gigabytes (garbage length fields): stop feeding
+                for o in scns.values():
+                    if len(failing) >= 100:
+                        cfgcov["cut_short_after_failures"] = True
+                        return
+                    yield o
+            pool.run_all(feed(), on_result, chunk=8)
             if mach_errors:
                 raise vlib.Undecided("harness / expectation problem: %s" % mach_errors[0])
             # confirm each failing scenario once from scratch, with full contents, before reporting
-            for scn in failing[:200]:
+            for scn in failing[:40]:
                 got = []
                 pool.run_all([dict(steps=scn["steps"], full=True)], lambda q, r: got.append(r))
                 viol, mach, _ = judge(scn, got[0])
